@@ -10,13 +10,21 @@ prop("C17",
                    dict(flavour="asan", mode="keywords", cases=3000),
                    dict(flavour="asan", mode="mutate", cases=14000),
                    dict(flavour="rel", mode="mutate", cases=14000),
-                   dict(flavour="rel", mode="keywords", cases=1000)],
+                   dict(flavour="rel", mode="keywords", cases=1000),
+                   # every line truncation of the 12 corpus seeds through every entry point (1064 points; the rest are no-ops)
+                   dict(flavour="asan", mode="truncate", cases=1100),
+                   dict(flavour="rel", mode="truncate", cases=1100)],
          "thorough": [dict(flavour="asan", mode="roundtrip", cases=57 * 20),
                       dict(flavour="rel", mode="roundtrip", cases=57 * 20),
                       dict(flavour="asan", mode="keywords", cases=15000),
                       dict(flavour="rel", mode="keywords", cases=15000),
                       dict(flavour="asan", mode="mutate", cases=50000),
-                      dict(flavour="rel", mode="mutate", cases=50000)],
+                      dict(flavour="rel", mode="mutate", cases=50000),
+                      dict(flavour="asan", mode="truncate", cases=1100),
+                      # every byte truncation (~35000 points, depends on the length of the scratch path in the multi-header) in
+                      # the release build, every 5th byte (phase = seed mod 5) under the sanitizers
+                      dict(flavour="rel", mode="truncate", cases=40000, env={"VERIF_C17_TRUNC": "byte"}),
+                      dict(flavour="asan", mode="truncate", cases=8200, env={"VERIF_C17_TRUNC": "byte", "VERIF_C17_TRUNC_STRIDE": "5"})],
      },
      min_nontrivial={"quick": 14000, "thorough": 55000},
      min_obs={"quick": {"mutated_inputs": 28000, "inputs_accepted_and_consistent": 12000, "inputs_rejected": 9000,
@@ -26,17 +34,22 @@ prop("C17",
                         "inputs_image": 4500, "inputs_dynimage": 1700, "inputs_pdfs": 6000, "inputs_spect": 1700,
                         "inputs_siemens": 1700, "inputs_multi": 1000, "inputs_kp": 2500, "inputs_par": 1300,
                         "equivalent_respellings_compared": 1600,
-                        "registered_classes_enumerated": 57, "registered_classes_round_tripped": 25,
-                        "roundtrip_fixed_points_checked": 110, "roundtrip_lines_compared": 900,
+                        "registered_classes_enumerated": 57, "registered_classes_round_tripped": 34,
+                        "roundtrip_fixed_points_checked": 140, "roundtrip_lines_compared": 1500,
                         "keyword_lines_respelled_and_matched": 12000, "vectorised_lines_stored_at_index": 4500,
                         "alias_lines_resolved": 800, "bad_index_lines": 550, "normaliser_strings_compared": 20000,
                         "equivalent_headers_same_result": 1400, "header_aliases_resolved": 500,
-                        "header_indexed_lines_reordered": 6000, "keyparser_own_text_reparsed": 1000},
+                        "header_indexed_lines_reordered": 6000, "keyparser_own_text_reparsed": 1000,
+                        "line_truncations_run": 1900},
               "thorough": {"mutated_inputs": 100000, "inputs_accepted_and_consistent": 45000, "data_length_checks": 30000,
-                           "registered_classes_enumerated": 114, "roundtrip_fixed_points_checked": 800,
+                           "registered_classes_enumerated": 114, "roundtrip_fixed_points_checked": 1100,
                            "keyword_lines_respelled_and_matched": 100000, "vectorised_lines_stored_at_index": 40000,
-                           "alias_lines_resolved": 7000, "bad_index_lines": 5000, "equivalent_headers_same_result": 11000}},
-     rule=("three kinds of case.  roundtrip: case i = registered class (i mod 57) of the 22 registries, variant i div 57: the object "
+                           "alias_lines_resolved": 7000, "bad_index_lines": 5000, "equivalent_headers_same_result": 11000,
+                           "line_truncations_run": 1000, "byte_truncations_run": 36000}},
+     exhaustive={"quick": "truncation after every line of each of the 12 corpus seeds (Interfile image/dynamic image/PET, SPECT and Siemens "
+                          "projection data headers, multi-header, KeyParser text) through every entry point of its family, in both builds",
+                 "thorough": "as quick, plus truncation after every byte of the same seeds in the release build (every 5th byte under the sanitizers)"},
+     rule=("four kinds of case.  roundtrip: case i = registered class (i mod 57) of the 22 registries, variant i div 57: the object "
            "parsed from nothing but its start keyword (variant 0) or from its own text with ~1/3 of the numeric values changed "
            "and keywords respelled (variants >= 1) prints parameter_info(); that text is parsed again and must print the same "
            "text (numeric tokens may differ by 1e-5 relative); classes whose default values are rejected or that need external "
@@ -45,7 +58,8 @@ prop("C17",
            "indices, optionally one line whose index cannot be honoured) compared with a reference model of the documented "
            "semantics; 10% standardise_interfile_keyword against a reference normaliser written from the documentation; 40% an "
            "Interfile header / multi-header that is equivalent to a seed by the documented rules (aliases, respelling, "
-           "vectorised lines of one keyword in another order) must give the same object as the seed.  mutate: one seed "
+           "vectorised lines of one keyword in another order) must give the same object as the seed.  truncate: case i = i-th element of the enumeration "
+           "(seed, entry point, cut after k lines | k bytes) over the 12 corpus seeds, judged like a mutated input.  mutate: one seed "
            "(Interfile image float/short, dynamic image, 4 PET projection-data headers incl. TOF and arc-corrected, 2 SPECT, 1 "
            "Siemens sinogram header, multi-header, KeyParser text, default parameter text of a random registered class; all "
            "but the Siemens/SPECT-non-circular/KeyParser texts written by STIR itself) with 1-3 grammar-aware mutations (value "
@@ -65,7 +79,7 @@ prop("C17",
                 "with an allocation-size monitor, replayed in the release build; inverse relation print->parse->print over all "
                 "registries; executable reference model for keyword normalisation, aliases and vectorised indices"),
      level_text=("every class of the 22 parsing registries (57 classes) is enumerated and, where it can be constructed without "
-                 "external data, its print -> parse -> print fixed point is checked for the default object and for objects with "
+                 "external data (37 classes), its print -> parse -> print fixed point is checked for the default object and for objects with "
                  "perturbed values; ~14000 (quick) / 50000 (thorough) mutated headers and parameter texts per build are pushed "
                  "through the public readers, each in its own process, with ASan/UBSan/asserts, a > 1 GiB single-allocation "
                  "monitor and data-length consistency checks on whatever is accepted (all bins of accepted projection data are "
@@ -77,7 +91,7 @@ prop("C17",
                  "(children_stopped_by_arithmetic_overflow_report) but not reported - the statement lists out-of-bounds access, "
                  "unbounded allocation and size mismatch; exceeding the 20 s CPU budget in the sanitizer build is counted, the "
                  "release build judges termination.  Coverage-guided libFuzzer stage not included (count-bounded campaign "
-                 "only).  29 of 57 registered classes cannot be built from defaults without external data and are only "
+                 "only).  20 of 57 registered classes cannot be built without external data (9 more get a few hand-written values) and are only "
                  "exercised through the mutation campaign up to their rejection"),
      assumptions=["an accepted object is judged by the consistency checks listed in `rule`; values other than sizes are not compared "
                   "with the header (faithfulness of values is C02/C10)",
